@@ -2,14 +2,14 @@
 Driver ops for Shift-Or, pair selection and the portable packed-pair prefilter.
 
   shiftor <hex needle> <hex hay>
-      Finder::new(needle)?.find(hay); answers `ok nofinder` when `Finder::new` is `None`
+      Finder::new(needle)?.find(hay); the value is `nofinder` when `Finder::new` is `None`
   pair <default|512-hex-digit rank table> <hex needle>
       Pair::new(needle) / Pair::with_ranker(needle, table); value `none` or `<i1>,<i2>`
   pairidx <hex needle> <i1> <i2>
       Pair::with_indices(needle, i1, i2); value `none` or `<i1>,<i2>`
   fbpre <hex needle> <i1> <i2> <base> <hex hay>
       packedpair::Finder::with_pair(needle, Pair::with_indices(needle, i1, i2)?)
-        .find_prefilter(hay); answers `ok badpair` when `with_indices` is `None`
+        .find_prefilter(hay); the value is `badpair` when `with_indices` is `None`
 
 Hex `-` is the empty string, numbers are decimal.  The haystack is region 0 (base `base`),
 needles are region 1.  All of this is safe code: the load trace is empty.
@@ -45,7 +45,7 @@ def handleShiftOrPair (op : String) (args : List String) : Option String :=
     let hs : Slice := Slice.ofMem { region := 0, base := 0, bytes := hbytes }
     match ShiftOr.Finder.new n {} with
     | .fault e => some (fmtFault e)
-    | .ok none _ => some "ok nofinder"
+    | .ok none c => some (fmtRes (fun _ => "nofinder") 1 (Res.ok () c))
     | .ok (some f) c => some (fmtRes fmtOptNat 1 (f.find hs c))
   | "pair", [ranker, needle] => do
     let rank ← parseRanker ranker
@@ -67,7 +67,7 @@ def handleShiftOrPair (op : String) (args : List String) : Option String :=
     let n : Slice := Slice.ofMem { region := 1, base := 0, bytes := nbytes }
     let hs : Slice := Slice.ofMem { region := 0, base := base, bytes := hbytes }
     match Pair.withIndices n i1 i2 with
-    | none => some "ok badpair"
+    | none => some (fmtRes (fun _ => "badpair") 1 (Res.ok () {}))
     | some p =>
       -- MEMCHR_PARAM: the crate's top-level `memchr` is modelled by its specification at no
       -- cost (`Fallback.specMemchr`); swap in the real dispatch model here.
